@@ -784,6 +784,7 @@ pub fn check_buffer(ctx: &mut Ctx, buf: &[u8], o: &Opts) -> Outcome {
         let pair = |a: RawAttribute| (a.get_type().value(), a.value.to_vec());
         let r = guard(|| {
             let mut bad: Vec<(String, String, String)> = vec![];
+            let mut bad2: Vec<(String, String, String)> = vec![];
             let mut chk = |how: String, got: Vec<(u16, Vec<u8>)>, want: Vec<(u16, Vec<u8>)>| {
                 if got != want && bad.len() < 2 {
                     bad.push((how, fmt_seq(&want), fmt_seq(&got)));
@@ -806,12 +807,53 @@ pub fn check_buffer(ctx: &mut Ctx, buf: &[u8], o: &Opts) -> Outcome {
                 chk(format!("step_by({step})"), msg.iter_attributes().step_by(step).take(n + 4).map(pair).collect(), exposed.iter().step_by(step).cloned().collect());
             }
             chk("last()".into(), msg.iter_attributes().last().map(pair).into_iter().collect(), exposed.last().cloned().into_iter().collect());
+            // consumers that ask for size_hint between elements (collect, extend, chain, zip, peekable),
+            // and the hint itself after every element: lower bound <= what is left <= upper bound
+            chk("collect()".into(), msg.iter_attributes().map(pair).collect::<Vec<_>>(), exposed.clone());
+            chk("filter().collect()".into(), msg.iter_attributes().filter(|a| a.get_type().value() != 0xfffe).map(pair).collect::<Vec<_>>(), exposed.iter().filter(|e| e.0 != 0xfffe).cloned().collect());
+            {
+                let mut v: Vec<(u16, Vec<u8>)> = Vec::new();
+                v.extend(msg.iter_attributes().map(pair));
+                chk("extend()".into(), v, exposed.clone());
+                let mut it = msg.iter_attributes();
+                let mut left = n;
+                let mut hints_ok = true;
+                loop {
+                    let (lo, hi) = it.size_hint();
+                    if lo > left || hi.map_or(false, |h| h < left) {
+                        hints_ok = false;
+                    }
+                    if it.next().is_none() {
+                        break;
+                    }
+                    left = left.saturating_sub(1);
+                }
+                let (lo, _) = it.size_hint();
+                if !hints_ok || lo != 0 {
+                    bad2.push(("size_hint() between elements".into(), "lower <= remaining <= upper".into(), format!("violated (after the end: lower {lo})")));
+                }
+                chk("chain()".into(), msg.iter_attributes().chain(msg.iter_attributes()).map(pair).collect::<Vec<_>>(), [exposed.clone(), exposed.clone()].concat());
+                chk("zip()".into(), msg.iter_attributes().zip(0..n + 3).map(|(a, _)| pair(a)).collect::<Vec<_>>(), exposed.clone());
+                let mut pk = msg.iter_attributes().peekable();
+                let mut got = vec![];
+                while pk.peek().is_some() {
+                    got.push(pair(pk.next().unwrap()));
+                }
+                chk("peekable()".into(), got, exposed.clone());
+                chk("fuse()".into(), msg.iter_attributes().fuse().map(pair).collect::<Vec<_>>(), exposed.clone());
+                chk("find()".into(), msg.iter_attributes().find(|a| a.get_type().value() == FP).map(pair).into_iter().collect(), exposed.iter().find(|e| e.0 == FP).cloned().into_iter().collect());
+                let pos = msg.iter_attributes().position(|a| a.get_type().value() == FP);
+                if pos != exposed.iter().position(|e| e.0 == FP) {
+                    bad2.push(("position()".into(), format!("{:?}", exposed.iter().position(|e| e.0 == FP)), format!("{pos:?}")));
+                }
+            }
             let cnt = msg.iter_attributes().count();
             let folded = msg.iter_attributes().fold(0usize, |a, _| a + 1);
             let (lo, hi) = msg.iter_attributes().size_hint();
             if cnt != n || folded != n || lo > n || hi.map_or(false, |h| h < n) {
                 bad.push(("count/fold/size_hint".into(), format!("{n} items"), format!("count {cnt} fold {folded} size_hint ({lo}, {hi:?})")));
             }
+            bad.extend(bad2);
             bad
         });
         match r {
